@@ -261,7 +261,11 @@ impl PathParser {
     fn evaluate(&mut self) -> Result<()> {
         self.tokens.skip_whitespace();
         while !self.tokens.at_end() {
+            #[cfg(feature = "verif-hooks")]
+            let verif_before = self.tokens.index;
             self.process_instruction()?;
+            #[cfg(feature = "verif-hooks")]
+            crate::verif::scanner_progress("path", verif_before, self.tokens.index);
         }
         Ok(())
     }
